@@ -26,7 +26,8 @@ inductive K | simple | enum | select | aggregate
 structure T where
   name : String
   kind : K
-  head : Option String      -- TYPEget_head: the defined type it renames
+  head : Option String      -- TYPEget_head: the defined type it renames and has to wait for; `none` also when that type belongs
+                            -- to another schema that was printed before this one (its mark is PROCESSED already)
   deriving Repr
 
 /-- the simple defined types written by the first loop (newest first) -/
